@@ -207,8 +207,9 @@ def run(idx, rep, tier):
     rep.floor("trace-rule", 2)
     rep.floor("auto-selection", 1)
     rep.explanation = ("Dominance / dependence / idiom checks on every diag and trace rule: refusal of k != 0 where the structural formula is main-diagonal only, use of k where it "
-                       "is generic, lengths n - |k|, recursive calls with unchanged (k, alg), row-major outer product / outer sum for Kronecker / KronSum, concatenation with "
-                       "multiplicities, trace as product / sum of the main diagonal, monotone Exact-vs-Hutch choice in Auto.")
+                       "is generic, lengths n - |k|, recursive calls with unchanged (k, alg), row-major outer product / outer sum for Kronecker / KronSum (AXES: abstract interpretation of the rule over axis "
+                       "labels, number of factors unrolled to 2-4), concatenation with multiplicities, structural trace rules against the kind's trace identity as scalar terms, "
+                       "monotone Exact-vs-Hutch choice in Auto and forwarding of Auto's options.")
     rep.assumptions += ["the shift arithmetic inside get_I_chunk_like (sizes not divisible by the block) and the numerical Auto threshold are not decided; of the probing loop only its coverage of all columns is"]
 
 
